@@ -220,6 +220,47 @@ let sem_transition (e : Sexp.t) : Sexp.t =
     end
   | _ -> bad "sem_transition: %s" (to_string e)
 
+(* same_reading: ("text1" "text2") -> both texts are read as the same TFF problem (used to validate
+   the specification reader against tptp4X's re-print of an emitted file) *)
+let rec flatten_assoc (f : M.Tff.tff_formula) : M.Tff.tff_formula =
+  let open M.Tff in
+  let rec operands c g = match g with
+    | TBin (c', l, r) when c' = c && (c = CAnd || c = COr) -> operands c l @ operands c r
+    | g -> [ flatten_assoc g ] in
+  match f with
+  | TBin (c, l, r) when c = CAnd || c = COr ->
+    (match operands c f with
+     | x :: rest -> List.fold_left (fun acc y -> TBin (c, acc, y)) x rest
+     | [] -> f)
+  | TBin (c, l, r) -> TBin (c, flatten_assoc l, flatten_assoc r)
+  | TNot g -> TNot (flatten_assoc g)
+  | TQ (q, vs, g) ->
+    (* tptp4X also merges ![A]: ![B]: F into ![A,B]: F *)
+    (match flatten_assoc g with
+     | TQ (q', vs', g') when q' = q -> TQ (q, vs @ vs', g')
+     | g' -> TQ (q, vs, g'))
+  | g -> g
+(* tptp4X re-prints (A & B) & (C & D) as A & B & C & D and merges nested blocks of one quantifier:
+   readings are compared modulo the associativity of & and | and the merging of blocks *)
+let flatten_problem (p : M.Tff.tff_problem) : M.Tff.tff_problem =
+  let open M.Tff in
+  { p with tp_formulas = List.map (fun a -> { a with n_formula = flatten_assoc a.n_formula }) p.tp_formulas }
+
+let same_reading (e : Sexp.t) : Sexp.t =
+  match e with
+  | L [ S t1; S t2 ] ->
+    (match (try Ok (Tff_problem_read.read t1, Tff_problem_read.read t2) with Tff_problem_read.Read_error m -> Error m) with
+     | Error m -> L [ A "cex"; L [ A "unreadable"; S m ] ]
+     | Ok (a, b) ->
+       let a = flatten_problem a and b = flatten_problem b in
+       if a = b then L [ A "ok"; A "1" ]
+       else begin
+         let open M.Tff in
+         let bad = List.find_opt (fun (x, y) -> x <> y) (try List.combine a.tp_formulas b.tp_formulas with _ -> []) in
+         L [ A "cex"; L [ A "different-reading"; S (match bad with Some (x, _) -> string_of_cl x.n_name | None -> "declarations or number of formulas") ] ]
+       end)
+  | _ -> bad "same_reading: %s" (to_string e)
+
 let problem_emit (e : Sexp.t) : Sexp.t =
   match e with
   | L [ p; d ] ->
@@ -244,6 +285,7 @@ let () =
   Ops.register "problem_display" (fun e -> of_string_result (M.ProblemPrint.problem_display (problem e)));
   Ops.register "problem_pipeline" problem_pipeline;
   Ops.register "problem_emit" problem_emit;
+  Ops.register "same_reading" same_reading;
   Ops.register "sem_problem_wt" (sem_problem_wt ~strict:false);
   Ops.register "sem_problem_wt_strict" (sem_problem_wt ~strict:true);
   Ops.register "sem_chain" sem_chain;
